@@ -115,26 +115,9 @@ fn child(args: &[String]) -> i32 {
     }
     std::panic::set_hook(Box::new(|_| {}));
     match args[0].as_str() {
-        "c01" => c01::child(&args[1..]),
         "c02" => c02::child(&args[1..]),
-        "c03" => c03::child(&args[1..]),
-        "c04" => c04::child(&args[1..]),
-        "c05" => c05::child(&args[1..]),
-        "c06" => c06::child(&args[1..]),
-        "c07" => c07::child(&args[1..]),
-        "c08" => c08::child(&args[1..]),
-        "c09" => c09::child(&args[1..]),
-        "c10" => c10::child(&args[1..]),
-        "c11" => c11::child(&args[1..]),
-        "c12" => c12::child(&args[1..]),
-        "c13" => c13::child(&args[1..]),
-        "c14" => c14::child(&args[1..]),
-        "c15" => c15::child(&args[1..]),
         "c16" => c16::child(&args[1..]),
-        "c17" => c17::child(&args[1..]),
         "c18" => c18::child(&args[1..]),
-        "c19" => c19::child(&args[1..]),
-        "c20" => c20::child(&args[1..]),
         _ => 2,
     }
 }
